@@ -237,8 +237,13 @@ var hostileRaw = []string{
 	`{"properties":{"spec":{"required":["compositionRef","claimRef","nope"],"oneOf":[{"required":["compositionRef"]},{"required":["compositionSelector"]}]}}}`,
 	`{"properties":{"spec":{"x-kubernetes-preserve-unknown-fields":true,"properties":{"writeConnectionSecretToRef":{"type":"object","x-kubernetes-preserve-unknown-fields":true}}}}}`,
 	`{"description":"d","properties":{"spec":{"description":"s","properties":{"compositionUpdatePolicy":{"type":"string","enum":["Never"],"default":"Never"},"compositeDeletePolicy":{"type":"string","default":"Orphan"}}}}}`,
+	// Decodable, but the derived CRD is not structural: the API server refuses it.
+	`{"properties":{"spec":{"properties":{"a":{}}}}}`,
+	`{"properties":{"spec":{"properties":{"a":{"type":"object","additionalProperties":{"type":"string"},"properties":{"b":{"type":"string"}}}}}}}`,
+	`{"properties":{"spec":{"oneOf":[{"type":"string"}],"properties":{"a":{"type":"string"}}}}}`,
+	`{"properties":{"status":{"properties":{"a":{"type":"array"}}}}}`,
 	// Not decodable into a JSON schema: derivation may only fail cleanly.
-	`[]`, `"x"`, `7`, `{"properties":[]}`, `{"properties":{"spec":{"required":"a"}}}`, `{"type":7}`, `{`, `{"properties":{"spec":{"properties":{"a":{"type":"string"}`,
+	`[]`, `"x"`, `7`, `{"properties":[]}`, `{"properties":{"spec":{"required":"a"}}}`, `{"type":7}`,
 }
 
 func subset(t *rapid.T, names []string, label string) []string {
@@ -449,6 +454,94 @@ func grammarSchema(t *rapid.T, shadows *int) map[string]any {
 	return root
 }
 
+var looseNames = []string{"spec", "status", "metadata", "name", "size", "region", "compositionRef", "claimRef", "resourceRefs", "resourceRef",
+	"writeConnectionSecretToRef", "publishConnectionDetailsTo", "compositionUpdatePolicy", "compositeDeletePolicy", "conditions", "connectionDetails", "claimConditionTypes"}
+
+// Loose generates a document that decodes as a Kubernetes JSON schema but is
+// otherwise unconstrained: any keyword anywhere, odd values, nulls.
+func Loose(t *rapid.T, depth int) map[string]any {
+	n := map[string]any{}
+	has := func(k string) bool { return rapid.IntRange(0, 3).Draw(t, "has:"+k) == 0 }
+	subs := func(label string) []any {
+		var l []any
+		k := rapid.IntRange(0, 2).Draw(t, label)
+		for i := 0; i < k; i++ {
+			l = append(l, Loose(t, depth-1))
+		}
+		return l
+	}
+	if has("type") {
+		n["type"] = rapid.SampledFrom([]string{"object", "string", "array", "integer", "", "bogus"}).Draw(t, "type")
+	}
+	if depth > 0 && rapid.IntRange(0, 1).Draw(t, "has:properties") == 0 {
+		if rapid.IntRange(0, 9).Draw(t, "nullprops") == 0 {
+			n["properties"] = nil
+		} else {
+			props := map[string]any{}
+			np := rapid.IntRange(0, 4).Draw(t, "nprops")
+			for i := 0; i < np; i++ {
+				name := rapid.SampledFrom(looseNames).Draw(t, "pname")
+				if rapid.IntRange(0, 9).Draw(t, "nullprop") == 0 {
+					props[name] = nil
+				} else {
+					props[name] = Loose(t, depth-1)
+				}
+			}
+			n["properties"] = props
+		}
+	}
+	if has("required") {
+		n["required"] = anyStrings(subset(t, looseNames[:8], "lreq"))
+	}
+	if depth > 0 && has("items") {
+		if rapid.Bool().Draw(t, "itemsarray") {
+			n["items"] = subs("nitems")
+		} else {
+			n["items"] = Loose(t, depth-1)
+		}
+	}
+	if depth > 0 && has("additionalProperties") {
+		if rapid.Bool().Draw(t, "apbool") {
+			n["additionalProperties"] = rapid.Bool().Draw(t, "apv")
+		} else {
+			n["additionalProperties"] = Loose(t, depth-1)
+		}
+	}
+	if has("maxLength") {
+		n["maxLength"] = rapid.SampledFrom([]int64{-1, 0, 1, 62, 63, 64, 1 << 40}).Draw(t, "lmaxlen")
+	}
+	if has("enum") {
+		n["enum"] = []any{"a", int64(1), nil, true, map[string]any{"k": "v"}}[:rapid.IntRange(0, 5).Draw(t, "nenum")]
+	}
+	if has("default") {
+		n["default"] = rapid.SampledFrom([]any{"Automatic", "Never", int64(3), nil, map[string]any{"name": "x"}, []any{}}).Draw(t, "ldefault")
+	}
+	if has("x-kubernetes-validations") {
+		n["x-kubernetes-validations"] = []any{map[string]any{"rule": rapid.SampledFrom([]string{"true", "self.x", ""}).Draw(t, "lrule")}}
+	}
+	for _, j := range []string{"oneOf", "anyOf", "allOf"} {
+		if depth > 0 && rapid.IntRange(0, 5).Draw(t, "has:"+j) == 0 {
+			n[j] = subs("n" + j)
+		}
+	}
+	if depth > 0 && rapid.IntRange(0, 7).Draw(t, "has:not") == 0 {
+		n["not"] = Loose(t, depth-1)
+	}
+	if has("x-kubernetes-preserve-unknown-fields") {
+		n["x-kubernetes-preserve-unknown-fields"] = rapid.Bool().Draw(t, "lpuf")
+	}
+	for _, kv := range []struct {
+		k string
+		v any
+	}{{"x-kubernetes-int-or-string", true}, {"x-kubernetes-embedded-resource", true}, {"nullable", true}, {"description", "d"},
+		{"format", "date-time"}, {"$ref", "#/definitions/x"}, {"pattern", "["}, {"x-kubernetes-list-type", "map"}, {"title", "t"}} {
+		if rapid.IntRange(0, 7).Draw(t, "has:"+kv.k) == 0 {
+			n[kv.k] = kv.v
+		}
+	}
+	return n
+}
+
 func printerColumns(t *rapid.T) []extv1.CustomResourceColumnDefinition {
 	n := rapid.SampledFrom([]int{0, 0, 0, 1, 2, 3, 5, 9, 10, 12, 17}).Draw(t, "ncols")
 	var cols []extv1.CustomResourceColumnDefinition
@@ -574,11 +667,11 @@ func XRD(t *rapid.T) *Case {
 			vr.Deprecated = ptr.To(false)
 		}
 		vr.AdditionalPrinterColumns = printerColumns(t)
-		switch k := rapid.IntRange(0, 19).Draw(t, "schemakind"); {
-		case k == 0:
+		switch k := rapid.IntRange(0, 29).Draw(t, "schemakind"); {
+		case k == 29:
 			c.SchemaKind = append(c.SchemaKind, "nil")
 			c.Structural = append(c.Structural, false)
-		case k <= 3:
+		case k >= 25:
 			raw := rapid.SampledFrom(hostileRaw).Draw(t, "hostile")
 			vr.Schema = &v1.CompositeResourceValidation{OpenAPIV3Schema: runtime.RawExtension{Raw: []byte(raw)}}
 			c.SchemaKind = append(c.SchemaKind, "hostile")
@@ -605,7 +698,29 @@ func XRD(t *rapid.T) *Case {
 
 	// Hand the XRD over the way the API does: as JSON.
 	c.XRD = RoundTrip(x)
+	if got := Collision(c.XRD); got != c.Collide {
+		panic(fmt.Sprintf("c11gen: generator bug: constructed collision %q, found %q", c.Collide, got))
+	}
 	return c
+}
+
+// Collision names the claim name field that equals the composite's name of the
+// same field ("" = none). Singular and listKind are optional: unset ones do not collide.
+func Collision(x *v1.CompositeResourceDefinition) string {
+	cn := x.Spec.ClaimNames
+	switch {
+	case cn == nil:
+		return ""
+	case cn.Kind == x.Spec.Names.Kind:
+		return "kind"
+	case cn.Plural == x.Spec.Names.Plural:
+		return "plural"
+	case cn.Singular != "" && cn.Singular == x.Spec.Names.Singular:
+		return "singular"
+	case cn.ListKind != "" && cn.ListKind == x.Spec.Names.ListKind:
+		return "listKind"
+	}
+	return ""
 }
 
 // RoundTrip encodes and decodes an XRD.
@@ -646,7 +761,16 @@ func Update(t *rapid.T, old *Case) (*Case, Mutation) {
 	n := &Case{XRD: old.XRD.DeepCopy(), ConvInvalid: old.ConvInvalid, Structural: append([]bool{}, old.Structural...), SchemaKind: append([]string{}, old.SchemaKind...)}
 	x := n.XRD
 	m := Mutation{}
-	muts := subset(t, []string{"group", "kind", "plural", "claimKind", "claimPlural", "claimToggle", "singular", "listKind", "shortNames", "served", "schema", "addVersion", "policies", "conversion", "claimSingular"}, "mut")
+	muts := subset(t, []string{"claimToggle", "singular", "listKind", "shortNames", "served", "schema", "addVersion", "policies", "conversion", "claimSingular"}, "mut")
+	if rapid.Bool().Draw(t, "immutables") {
+		immut := []string{"group", "kind", "plural", "claimKind", "claimPlural"}
+		muts = append(muts, rapid.SampledFrom(immut).Draw(t, "immut1"))
+		for _, mu := range subset(t, immut, "immut") {
+			if mu != muts[len(muts)-1] {
+				muts = append(muts, mu)
+			}
+		}
+	}
 	for _, mu := range muts {
 		switch mu {
 		case "group":
@@ -722,6 +846,17 @@ func Update(t *rapid.T, old *Case) (*Case, Mutation) {
 	x.Generation++
 	x.ResourceVersion = "2"
 	n.XRD = RoundTrip(x)
+	n.Collide = Collision(n.XRD)
+	// What changed is read off the pair, not off the mutation script.
+	o, u := old.XRD.Spec, n.XRD.Spec
+	m.Group = o.Group != u.Group
+	m.Kind = o.Names.Kind != u.Names.Kind
+	m.Plural = o.Names.Plural != u.Names.Plural
+	both := o.ClaimNames != nil && u.ClaimNames != nil
+	m.ClaimKind = both && o.ClaimNames.Kind != u.ClaimNames.Kind
+	m.ClaimPlural = both && o.ClaimNames.Plural != u.ClaimNames.Plural
+	m.ClaimAdded = o.ClaimNames == nil && u.ClaimNames != nil
+	m.ClaimRemoved = o.ClaimNames != nil && u.ClaimNames == nil
 	return n, m
 }
 
